@@ -57,7 +57,7 @@ def _work_inner(classes, tier, rank, nworkers, cfg_filter_name):
                 continue
             sig = (K, b.src, _child_sig(cfg), repr(sorted(cfg.kwargs.items(), key=repr)),
                    repr([a for a in cfg.args if isinstance(a, (str, bytes, int, type(None)))]),
-                   repr(sorted(cfg.post.items())), b.AS, b.CP)
+                   repr(sorted(cfg.post.items())), b.AS, b.CP, repr(getattr(cfg, 'siblings', None)))
             if sig in cache and not cfg.ctx is None and K != 'Ref':
                 fs, notes, nex, nst = cache[sig]
                 # same skeleton under the other convention: findings carry this key too
